@@ -79,8 +79,10 @@ func (c *Controller) handleEvent(evt config.Event) {
 	case *config.SvcConfigEvent:
 		c.handleSvcConfigUpdate(evt.Name, evt.Config)
 	case *config.SvcEndpointEvent:
-		c.handleSvcEndpointsAdd(evt.Name, evt.Added)
+		// Same order as the config store: removals first, then additions,
+		// an address in both lists stays.
 		c.handleSvcEndpointsRemove(evt.Name, evt.Removed)
+		c.handleSvcEndpointsAdd(evt.Name, evt.Added)
 	default:
 		logger.Warnf("unkown event: %v", evt)
 	}
